@@ -242,11 +242,13 @@ var Module = map[string]ugo.Object{
 	// Returns a new string consisting of count copies of the string s.
 	//
 	// - If count is a negative int, it returns empty string.
-	// - If (len(s) * count) overflows, it panics.
+	// - If (len(s) * count) exceeds the size limit, it returns an error.
 	"Repeat": &ugo.Function{
-		Name:    "Repeat",
-		Value:   stdlib.FuncPsiRO(repeatFunc),
-		ValueEx: stdlib.FuncPsiROEx(repeatFunc),
+		Name: "Repeat",
+		Value: func(args ...ugo.Object) (ugo.Object, error) {
+			return repeatFunc(ugo.NewCall(nil, args))
+		},
+		ValueEx: repeatFunc,
 	},
 	// ugo:doc
 	// Replace(s string, old string, new string[, n int]) -> string
@@ -601,12 +603,32 @@ func pad(c ugo.Call, left bool) (ugo.Object, error) {
 	return ugo.String(sb.String()), nil
 }
 
-func repeatFunc(s string, count int) ugo.Object {
+func repeatFunc(c ugo.Call) (ugo.Object, error) {
+	if err := c.CheckLen(2); err != nil {
+		return ugo.Undefined, err
+	}
+	s, ok := ugo.ToGoString(c.Get(0))
+	if !ok {
+		return ugo.Undefined,
+			ugo.NewArgumentTypeError("1st", "string", c.Get(0).TypeName())
+	}
+	count, ok := ugo.ToGoInt(c.Get(1))
+	if !ok {
+		return ugo.Undefined,
+			ugo.NewArgumentTypeError("2nd", "int", c.Get(1).TypeName())
+	}
 	// if n is negative strings.Repeat function panics
 	if count < 0 {
-		return ugo.String("")
+		return ugo.String(""), nil
 	}
-	return ugo.String(strings.Repeat(s, count))
+	// strings.Repeat panics if the result length overflows and would
+	// otherwise try to allocate whatever it is asked for
+	if len(s) > 0 && count > internal.MaxInt32/len(s) {
+		return ugo.Undefined,
+			ugo.NewArgumentTypeError("2nd", "smaller repeat count",
+				"count too large for the length of the 1st argument")
+	}
+	return ugo.String(strings.Repeat(s, count)), nil
 }
 
 func replaceFunc(c ugo.Call) (ugo.Object, error) {
